@@ -131,6 +131,20 @@ def direct_resume(ctx, db):
                 kind = 'K4 generator\'s own handle'
             elif f['key'] in thread_bodies:
                 kind = 'K5 body of a fresh thread'
+            if kind is None and re.fullmatch(r'param:\w+', e.get('recv') or '') and not f.get('lambda'):
+                # a helper that resumes its parameter: the kind of every value passed to it (resume_started(start_promise(p)))
+                idx = next((i for i, p_ in enumerate(f['params']) if 'param:' + p_['name'] == e['recv']), None)
+                kinds = set()
+                for g in db.all_instances():
+                    for ce in g.events():
+                        if ce.k == 'call' and ce.get('callee_key') == f['key'] and idx is not None and idx < len(ce.get('args') or []):
+                            a = ce['args'][idx]
+                            ao = value_origin(g, g.ev(a['ev'])) if a.get('ev') is not None and g.ev(a['ev']) is not None else value_origin(g, a.get('path') or '')
+                            kinds.add(norm((ao or {}).get('callee') or '') or '?')
+                if kinds and kinds <= {'cocls::async::start_promise'}:
+                    kind = 'K3 start of a not-yet-started child (every caller passes the result of start_promise)'
+                elif kinds and kinds <= {'std::coroutine_handle::from_promise', 'cocls::generator::promise_type::next_async'}:
+                    kind = 'K4 generator\'s own handle (every caller passes it)'
             if kind is None:
                 kind = _inherited_kind(db, f, passed_to_install, thread_bodies)
             ctx.ob(rid, f, e['loc'], kind is not None, 'direct resume of %s is of kind %s' % (e.get('recv'), kind or 'UNKNOWN: it may pre-empt a running coroutine with a ready one'),
